@@ -1,13 +1,13 @@
 //! C02 — authentication is skipped only for a valid, unexpired, same-IP signed cookie.
 
-use crate::cookie::{self, Class, WRONG_SHAPES};
+use crate::cookie::{self, Class, RELATED_IPS, WRONG_SHAPES};
 use crate::mk::{self, AUTH_KEY, facts};
 use crate::scenario::*;
 use serde_json::json;
 use std::time::Duration;
 use vp_common::report::par_map;
 use vp_common::{Cli, Report, Rng, Tier};
-use vp_sim::client::Act;
+use vp_sim::client::{Act, CookieAnswer};
 
 #[derive(Clone, Debug)]
 struct Case {
@@ -86,8 +86,13 @@ fn generate(cli: &Cli) -> (Vec<Case>, bool) {
     let flip_stride = if cli.tier == Tier::Quick { 8 } else { 1 };
     for base in 0..bases {
         let mut rng = Rng::stream(cli.seed, 1000 + base);
-        let v6 = base % 2 == 1;
-        let client_addr: std::net::SocketAddr = if v6 { "[2001:db8:17::9]:51123".parse().expect("addr") } else { mk::random_addr(&mut rng).parse().expect("addr") };
+        let v4: std::net::SocketAddr = mk::random_addr(&mut rng).parse().expect("addr");
+        let client_addr: std::net::SocketAddr = match (base % 4, v4.ip()) {
+            (1, _) => "[2001:db8:17::9]:51123".parse().expect("addr"),
+            // a client whose IPv6 address embeds an IPv4 one (IPv4-compatible)
+            (2, std::net::IpAddr::V4(a)) => std::net::SocketAddr::new(cookie::related_ip(std::net::IpAddr::V4(a), 0), v4.port()),
+            _ => v4,
+        };
         let main = Ctx { intent: Intent::Transfer, server_secret: Some(rng.bytes_between(1, 48)), expiry: None, client_addr };
         // length of a valid cookie in this context (to enumerate truncations and flips completely)
         let probe = make_case(&mut rng.clone(), &main, Class::Valid, false, true);
@@ -116,6 +121,9 @@ fn generate(cli: &Cli) -> (Vec<Case>, bool) {
             ];
             for i in 0..WRONG_SHAPES {
                 classes.push(Class::SignedWrongShape(i));
+            }
+            for i in 0..RELATED_IPS {
+                classes.push(Class::RelatedIp(i));
             }
             let e = ctx.expiry.unwrap_or(6 * 3600) as i64;
             if e == 0 {
@@ -274,21 +282,65 @@ fn issued_cookie_histories(cli: &Cli) -> Vec<(String, bool, Vec<(Finding, serde_
     })
 }
 
+/// The age of a cookie counts when it is presented, not when the connection began: a cookie 3 s
+/// short of its expiry, presented by a client that takes 6 s (real time) to answer the cookie
+/// request, is expired when it arrives. Control: the same cookie answered at once is accepted.
+fn stalled_answer_histories(cli: &Cli) -> Vec<(String, bool, Vec<(Finding, serde_json::Value)>, serde_json::Value)> {
+    let n = cli.scaled(cli.tier.pick(1, 4));
+    let items: Vec<u64> = (0..2 * n).collect();
+    par_map(items, 8, |_, i| {
+        let stalled = i % 2 == 0;
+        let mut rng = Rng::stream(cli.seed, 26_000 + i);
+        let expiry = *rng.pick(&[60u64, 600, 6 * 3600]);
+        let ctx = Ctx { intent: Intent::Transfer, server_secret: Some(rng.bytes_between(8, 32)), expiry: if expiry == 6 * 3600 { None } else { Some(expiry) }, client_addr: mk::random_addr(&mut rng).parse().expect("addr") };
+        let mut case = make_case(&mut rng, &ctx, Class::Aged(expiry as i64 - 3), false, true);
+        if stalled {
+            // the first request asks for the session cookie, the second for the authentication cookie
+            case.sc.client.cookie_answers = vec![CookieAnswer::Normal, CookieAnswer::NormalAfterReal(Duration::from_millis(6000))];
+        }
+        let class = format!("cookie-3s-before-expiry/{}", if stalled { "answered-after-6s" } else { "answered-at-once" });
+        let built = std::time::Instant::now();
+        let r = run(&case.sc);
+        let took = built.elapsed();
+        let flag = r.client.enc_request.as_ref().map(|e| e.2);
+        let mut findings = vec![];
+        match (stalled, flag) {
+            (true, Some(false)) => findings.push(Finding { signature: "flag-mismatch/transfer/secret/expired-while-awaited/should-authenticate".into(), what: format!("a cookie that was {} s old (expiry {expiry} s) when it arrived was accepted: its age was judged by a clock read before the server waited for it", expiry + 3), detail: json!({}) }),
+            // a loaded machine may take longer than the margin: then the cookie did expire and nothing can be said
+            (false, Some(true)) if took < Duration::from_millis(2500) => findings.push(Finding { signature: "flag-mismatch/transfer/secret/aged/should-skip".into(), what: format!("a cookie 3 s short of its expiry ({expiry} s), answered at once, was not accepted"), detail: json!({}) }),
+            (_, None) => findings.push(Finding { signature: format!("no-encryption-request/transfer/secret/aged/{}", r.result.kind()), what: "connection ended before the Encryption Request".into(), detail: json!({}) }),
+            _ => {}
+        }
+        let sample = json!({"case": class, "expiry_s": expiry, "should_authenticate_observed": flag, "real_ms": took.as_millis() as u64, "cookie_requests_answered": r.client.sent.iter().filter(|s| s.label.starts_with("CookieResponse")).count()});
+        let ws = findings.into_iter().map(|f| { let w = witness(&case.sc, &r, f.detail.clone()); (f, w) }).collect();
+        (class, stalled, ws, sample)
+    })
+}
+
 pub fn run_prop(cli: &Cli) -> i32 {
     let mut report = Report::new(
         cli,
         "exploration",
         "per base cookie: every truncation length, every (quick: every 8th, rotating with the seed) single-bit flip of tag and body, plus absent/empty/valid/other port/other secret/other IP/aged (±margin around expiry, future, 10x)/signed garbage/signed wrong-shape JSON/short random, each under intent{transfer,login} × secret{set,none} × expiry{default,60,0}; the verdict is read from the should-authenticate flag of the Encryption Request, a sample of every class runs to the end; distinct = (context, class, flipped byte or truncation length)",
     );
-    report.assume("cookie ages within ±10 s of the expiry boundary are not generated (the code reads the wall clock)");
+    report.assume("cookie ages within ±10 s of the expiry boundary are not generated (the code reads the wall clock), except in the stalled-answer histories: 3 s before the expiry, answered at once (judged only if the run took < 2.5 s) or after 6 s of real time");
     report.assume("timestamp+expiry beyond 2^64 is outside the generated domain");
     let (cases, all_flips) = generate(cli);
     // the real-time histories run beside the bulk of the cases
-    let (histories, results) = std::thread::scope(|sc| {
+    let (histories, stalled, results) = std::thread::scope(|sc| {
         let h = sc.spawn(|| issued_cookie_histories(cli));
+        let h2 = sc.spawn(|| stalled_answer_histories(cli));
         let r = bulk(cli, cases);
-        (h.join().unwrap_or_default(), r)
+        (h.join().unwrap_or_default(), h2.join().unwrap_or_default(), r)
     });
+    for (class, was_stalled, findings, sample) in stalled {
+        report.eval(Some(&class));
+        report.count(if was_stalled { "cookies that expired while the server waited for them" } else { "cookies 3 s short of their expiry answered at once" }, 1);
+        report.sample(sample);
+        for (fi, w) in findings {
+            report.violation(&fi.signature, &fi.what, w);
+        }
+    }
     for (class, aged, findings, sample) in histories {
         report.eval(Some(&class));
         report.count(if aged { "server-issued cookies presented after their expiry" } else { "server-issued cookies presented at once" }, 1);
